@@ -299,14 +299,11 @@ impl Map {
         let s = self.sources.get(idx as usize)?;
         match &self.source_root {
             Some(root) if !root.is_empty() => {
-                let is_abs = s.starts_with('/')
-                    || s.starts_with("http:")
-                    || s.starts_with("https:")
-                    || s.starts_with("file:");
+                let is_abs = !s.is_empty() && (s.starts_with('/') || s.starts_with("http:") || s.starts_with("https:"));
                 if is_abs {
                     Some(s.clone())
                 } else {
-                    let r = root.trim_end_matches('/');
+                    let r = root.strip_suffix('/').unwrap_or(root);
                     Some(format!("{r}/{s}"))
                 }
             }
